@@ -2,6 +2,9 @@
 """Regenerates MANIFEST.json from the table below (kept in one place so it stays valid)."""
 import json, subprocess
 CHECKS = {
+ "C07": dict(level="exploration", tech="version-history + reference-set oracle on a real node (driver + store + Node validation + vault stub): rounds of 1-3 simultaneous deliveries per key over the paid, unpaid-update and replication paths; the stored value is sampled after every local command touching the key and at quiescence",
+             text="Scratchpads (fresh / stale / equal counters, unsigned, foreign signer, foreign owner, swapped payload), transaction vectors (valid, forged, foreign, duplicates) and register replicas (permitted / unauthorised / forged / oversized ops, other base) are delivered; stored content must always be owner-signed, never regress, and reflect every accepted or unconditional valid delivery. Lost updates inside rounds of concurrent deliveries are a recorded structural defect (seven signatures); everything else is armed.",
+             note="Only Ok deliveries and valid paid/replicated deliveries are required to be reflected; same-key disk tasks and commands keep spawn order.", ref="DESIGN.md §4 C07"),
  "C04": dict(level="exploration", tech="before/after store-image oracle on a real node (driver + store + Node validation + vault stub): deliveries over the client, unpaid-update, replication and raw kad-put paths with adversarially mismatched (key, content) pairs; emitted UnverifiedRecord events captured",
              text="Every delivery under a key its content does not determine must return Err and leave the complete store image byte-identical; correctly keyed deliveries may change only their own key; raw puts are never readable before validation, oversized/unparseable ones are refused.",
              note="key_of(content) is computed by the harness from the property statement (hashes of bytes / owner / meta+owner); acceptance of correctly keyed deliveries is left to C03/C07.", ref="DESIGN.md §4 C04"),
